@@ -29,6 +29,9 @@ def run(tier, argv):
     raws3 = work.path("gen-shared3.txt")
     r = vlib.tlc(work, "Life", "Life.cfg", consts={"MaxLen": Ls, "World": '"shared3"'}, to_file=raws3, timeout=6000, heap="24g")
     rep.add_tlc(r, "Life, shared3 world: all histories of length %s over a root with KeysAreOptionalByDefault and a root without it (same type object)" % Ls)
+    raws4 = work.path("gen-shared4.txt")
+    r = vlib.tlc(work, "Life", "Life.cfg", consts={"MaxLen": Ls, "World": '"shared4"'}, to_file=raws4, timeout=6000, heap="24g")
+    rep.add_tlc(r, "Life, shared4 world: all histories of length %s over two roots holding one type object that refers to a type only one of them has" % Ls)
     rawd = work.path("gen-docs.txt")
     Ld = "4" if quick else "5"
     r = vlib.tlc(work, "Life", "Life.cfg", consts={"MaxLen": Ld, "World": '"docs"'}, to_file=rawd, timeout=6000, heap="24g")
@@ -36,7 +39,7 @@ def run(tier, argv):
     cases, docs = work.path("cases.ndjson"), work.path("docs.json")
     n = 0
     with open(cases, "w") as f:
-        for src in (raw, raws, raws2, raws3, rawd):
+        for src in (raw, raws, raws2, raws3, raws4, rawd):
             for l in vlib.tagged_file(src, "@@CASE"):
                 f.write(l + "\n")
                 n += 1
